@@ -160,3 +160,14 @@ Example disabled_ops_ignored :
               CheckoutStart 1; CheckoutOk 1 7; CandidateTry 1; CheckoutOk 1 7; ServerDrop 7; Login 1 1 true] =
   [Login 1 1 true; HandleStart 1; ServerConnect 7 0; ServerReady 7; CheckoutStart 1; CandidateTry 1; CheckoutOk 1 7].
 Proof. vm_compute. reflexivity. Qed.
+
+(** A checkout that [pool.get] refuses before its candidate loop (Err(InvalidShardId): the router names a shard the
+    pool does not have): [waiting()] in client.rs, then the Err arm's [idle()] — no candidate is ever tried, the
+    client stays connected and is shown idle. *)
+Example refusal_is_idle :
+  let ops := [Login 1 1 true; HandleStart 1; CheckoutStart 1; CheckoutGiveUp 1] in
+  let t := run cf_w ops in
+  trace cf_w ops = ops /\ c_state (cl t 1) = CIdle /\ c_chk (cl t 1) = false /\
+  show_pools cf_w t 1 = mkP 1 0 0 0 0 0 0 /\
+  c_state (cl (run cf_w (firstn 3 ops)) 1) = CWaiting.
+Proof. vm_compute. repeat split. Qed.
